@@ -227,6 +227,48 @@ def read_replay(path):
 # Drivers (run inside a worker process)
 
 
+class CaseAlarm(object):
+    """A single case that runs longer than the whole sub-check's soft time cap does not terminate for the purposes of
+    a check (typical cases take milliseconds): the code under test is interrupted and the case is reported as
+    <sub-check's property>/case-does-not-terminate.  Main thread only (SIGALRM); a no-op elsewhere."""
+
+    def __init__(self, sub, tier):
+        import signal
+        import threading
+        self.signal = signal
+        self.limit = float(max(60, sub.time_cap.get(tier, 60)))
+        self.enabled = threading.current_thread() is threading.main_thread() and hasattr(signal, "setitimer") \
+            and getattr(sub, "case_alarm", True)
+        self.prefix = None
+
+    def __enter__(self):
+        if self.enabled:
+            def on_alarm(signum, frame):
+                raise CaseDoesNotTerminate()
+            self.previous = self.signal.signal(self.signal.SIGALRM, on_alarm)
+            self.signal.setitimer(self.signal.ITIMER_REAL, self.limit)
+        return self
+
+    def __exit__(self, *exc):
+        if self.enabled:
+            self.signal.setitimer(self.signal.ITIMER_REAL, 0)
+            self.signal.signal(self.signal.SIGALRM, self.previous)
+        return False
+
+
+class CaseDoesNotTerminate(BaseException):
+    pass
+
+
+def guarded_oracle(sub, tier, case, prop):
+    try:
+        with CaseAlarm(sub, tier) as alarm:
+            return sub.oracle(case)
+    except CaseDoesNotTerminate:
+        raise Violation("%s/case-does-not-terminate" % prop,
+                        "the code under test was still busy with one generated case after %d s (the whole sub-check normally takes less)" % alarm.limit)
+
+
 class Found(object):
     def __init__(self, violation, case, reproducible=True):
         self.violation = violation
@@ -246,7 +288,7 @@ def run_enumeration(sub, tier, shard, nshards, known, rec, deadline):
             rec.notes.append("time cap reached in enumeration at index %d" % i)
             break
         try:
-            info = sub.oracle(case)
+            info = guarded_oracle(sub, tier, case, getattr(sub, "prop", None) or "CHECK")
         except Skip:
             rec.skipped += 1
             continue
@@ -305,7 +347,7 @@ def run_hypothesis(sub, tier, n, seed_value, known, rec, deadline,
                 # failing case recorded so far is reported
                 raise ShrinkBudget("shrink budget of %d s used up" % shrink_budget)
             try:
-                info = sub.oracle(case)
+                info = guarded_oracle(sub, tier, case, getattr(sub, "prop", None) or "CHECK")
             except Skip:
                 rec.skipped += 1
                 return
